@@ -106,6 +106,26 @@ theorem getSubProtocol_eq (o : ClientOpt) (resp : Resp) :
     · simp [h1, h2, hl, errOfCErr]
     · simp [h1, h2, hl]
 
+/-- the fixed fields of the upgrade request and the key: on top of the configured headers the client sets `Connection`,
+`Upgrade`, `Sec-WebSocket-Version`, the extension offer when compression is enabled, and a `Sec-WebSocket-Key` that is the
+base64 form of 16 bytes drawn from the PRNG (two 64-bit draws, big-endian) — `Hs.requestHeader` — and that key has the 24
+characters of a 16-byte value -/
+theorem request_headers_eq (o : ClientOpt) (enabled : Bool) (offer : Str) (rnd rnd2 : UInt64) :
+    Trans.connector_request_headers (c_option_PermessageDeflate_Enabled := enabled) (c_secWebsocketKey := asc "")
+        (r_Header := o.requestHeader) (offer := offer) (rnd := rnd) (rnd_2 := rnd2)
+      = .ok (Base64.encode (goBytesU64BE rnd ++ goBytesU64BE rnd2),
+             requestHeader o (Base64.encode (goBytesU64BE rnd ++ goBytesU64BE rnd2)) (if enabled then some offer else none))
+    ∧ (Base64.encode (goBytesU64BE rnd ++ goBytesU64BE rnd2)).length = 24 := by
+  constructor
+  · unfold Trans.connector_request_headers requestHeader
+    have hk : (goCopy (goCopy (List.replicate 16 (0 : UInt8)) ((0 : Int)).toNat (goBytesU64BE rnd)) ((8 : Int)).toNat (goBytesU64BE rnd2)).drop ((0 : Int)).toNat
+        = goBytesU64BE rnd ++ goBytesU64BE rnd2 := by
+      simp [goCopy, goBytesU64BE]
+    have he : (asc "" == asc "") = true := by decide
+    simp only [he, hk, ↓reduceIte]
+    cases enabled <;> simp [kConnection, kUpgrade, kVersion, kExtensions, kKey]
+  · simp [goBytesU64BE, Base64.encode]
+
 /-- the Go error value of a server-side handshake error -/
 def errOfSErr : SErr → Option GoErr
   | .unauthorized => some (.named "ErrUnauthorized")
